@@ -1,7 +1,7 @@
 PROP = {
     "level": "proof",
     "legs": ["c18-stamps", "c18-spellings", "c18-harvest"],
-    "timeout_quick": 900,
+    "timeout_quick": 300,
     "trusted_base": TB_COMMON + [
         "token abstraction of the pattern text (Model/Options.v gtok) and the harness printer; the exported-tree walker that reads node Options back (RightToLeft bit masked; IgnoreCase compared on back-reference nodes only, because RegexNode.reduce clears it elsewhere)",
         "for the per-instance check: equality of the compiled programs (Code.Codes/Strings/Sets/TrackCount/Capsize/Anchors) of two spellings implies equal behaviour on all inputs (the interpreter reads nothing else of the pattern)",
